@@ -39,6 +39,12 @@ type lane struct {
 	arrivals chan *handle // gated: every Writer() call announces itself here
 	rchunk   int          // reader hands out at most rchunk bytes per Read call (0 = everything)
 	rcalls   int          // Reader() calls since beginRead
+	// strict: like github.com/coder/websocket (and nhooyr.io/websocket) the connection refuses to hand out the next message
+	// while the previous message's reader has not reported the end of the message. A message written through Writer() travels as
+	// data frames followed by an empty final frame, so the end is only seen by a Read call that follows the last data byte.
+	// Not strict: like gorilla/websocket the rest of the previous message is discarded.
+	strict bool
+	cur    *frameReader
 }
 
 func newLane(excl, gated bool, rchunk int) *lane {
@@ -136,10 +142,14 @@ func (h *handle) Close() error {
 type frameReader struct {
 	l    *lane
 	data []byte
+	eof  bool // the end of the message was reported (guarded by l.mu)
 }
 
 func (r *frameReader) Read(p []byte) (int, error) {
 	if len(r.data) == 0 {
+		r.l.mu.Lock()
+		r.eof = true
+		r.l.mu.Unlock()
 		return 0, io.EOF
 	}
 	n := len(p)
@@ -167,6 +177,7 @@ func (l *lane) beginRead() {
 }
 
 var errSecondReader = errors.New("memconn: second Reader() call within one Transport.Read")
+var errNotDrained = errors.New("memconn: previous message not read to completion")
 
 func (l *lane) reader(ctx context.Context) (io.Reader, error) {
 	stop := context.AfterFunc(ctx, func() {
@@ -181,6 +192,9 @@ func (l *lane) reader(ctx context.Context) (io.Reader, error) {
 	if l.rcalls > 1 {
 		return nil, errSecondReader
 	}
+	if l.strict && l.cur != nil && !l.cur.eof {
+		return nil, errNotDrained
+	}
 	for len(l.q) == 0 {
 		if l.closed {
 			return nil, transport.ErrAlreadyClosed
@@ -192,7 +206,8 @@ func (l *lane) reader(ctx context.Context) (io.Reader, error) {
 	}
 	f := l.q[0]
 	l.q = l.q[1:]
-	return &frameReader{l: l, data: f}, nil
+	l.cur = &frameReader{l: l, data: f}
+	return l.cur, nil
 }
 
 func (l *lane) close() {
